@@ -35,6 +35,10 @@ struct Fake { p: L, x: u32 }
 #[repr(C)]
 #[zero_copy]
 struct Outer { a: u8, f: [Fake; 2] }
+#[derive(Epserde, Clone, Copy, Debug)]
+#[repr(C)]
+#[zero_copy]
+enum FakeE { A, T(u8, L), N { p: L } }
 #[derive(Epserde, Clone, Debug)]
 struct Deep<T> { n: u8, t: T }
 
@@ -68,4 +72,8 @@ fn main() {
     attempt("deep-struct-vec-field", &Deep { n: 3, t: vec![f] }, 1);
     attempt("vec-of-vec", &vec![vec![f]], 8);
     attempt("slice-ref", &&[f, f][..], 0);
+    attempt("enum-tuple-variant", &FakeE::T(1, l), 0);
+    attempt("enum-struct-variant", &FakeE::N { p: l }, 0);
+    attempt("enum-unit-variant", &FakeE::A, 0);
+    attempt("vec-of-enum", &vec![FakeE::T(1, l)], 0);
 }
